@@ -57,6 +57,37 @@ def install_graph_models(ip):
     ip.models["networkx.DiGraph"] = digraph
     ip.models["networkx.topological_sort"] = lambda ip_, go: topo_sort(go.attrs["g"])
 
+    def dfs_order(go, post):
+        """A-NX: depth-first traversal from every node in insertion order, successors in edge-insertion order; NO cycle detection (as networkx)"""
+        g, seen, out = go.attrs["g"], [], []
+
+        def visit(n):
+            if any(n is x for x in seen):
+                return
+            seen.append(n)
+            if not post:
+                out.append(n)
+            for a, b in g.edges:
+                if a is n:
+                    visit(b)
+            if post:
+                out.append(n)
+        for n in g.nodes:
+            visit(n)
+        return out
+
+    ip.models["networkx.dfs_postorder_nodes"] = lambda ip_, go, source=None: dfs_order(go, True)
+    ip.models["networkx.dfs_preorder_nodes"] = lambda ip_, go, source=None: dfs_order(go, False)
+
+    def is_dag(ip_, go):
+        try:
+            topo_sort(go.attrs["g"])
+            return True
+        except PyRaise:
+            return False
+
+    ip.models["networkx.is_directed_acyclic_graph"] = is_dag
+
     def reach(go, start, forward):
         from pyvc.models import SetList
         g, out, todo = go.attrs["g"], SetList(), [start]
@@ -102,6 +133,7 @@ def dist_fn(name, event_shape=(), batch_shape=()):
     def make(ip_, *a, **k):
         params = [ip_.to_U(x) for x in a] + [ip_.to_U(k[q]) for q in sorted(k)]
         return PyObj(f"tfp:{name}", log_prob=PyFn(lambda ip2, x: ip2.uf(f"logp_{name}", *params, ip2.to_U(x)), "log_prob"), params=params, family=name,
+                     cdf=PyFn(lambda ip2, x: ip2.uf(f"cdf_{name}", *params, ip2.to_U(x)), "cdf"),
                      sample=PyFn(lambda ip2, shape, seed=None: ip2.uf(f"draw_{name}", *params, ip2.to_U(shape), ip2.to_U(seed)), "sample"),
                      event_shape=event_shape, batch_shape=batch_shape)
     return PyFn(make, name)
@@ -206,7 +238,27 @@ def shape_weakdist_deep(g, per_obs=True):
     return [w]
 
 
+def shape_optional(g, per_obs=True):
+    """an OPTIONAL input: a variable whose value is None ("no offset" - None is a legitimate value) feeding a cached calculation"""
+    b = g.var("b", dist=g.dist("Pb"), parameter=True)
+    off = g.ip.call(g.Var, [None, None], {"name": "off"})
+    eta = g.var("eta", value=g.calc("f_eta", b, off))
+    y = g.var("y", dist=g.dist("Lik", eta, per_obs=per_obs), observed=True)
+    return [y]
+
+
+def shape_pit(g, per_obs=True):
+    """a caching node that is NEITHER a Calc NOR a Dist: the probability-integral-transform node of liesel.model.legacy (derives from Node directly),
+    u = F_Lik(mu)(y), with a distribution of its own"""
+    mu = g.var("mu", dist=g.dist("Pmu"), parameter=True)
+    y = g.var("y", dist=g.dist("Lik", mu, per_obs=per_obs), observed=True)
+    u = g.ip.call(g.ip.repo("liesel/model/legacy.py::PIT"), [y], {"distribution": g.dist("Du")})
+    return [u]
+
+
 SHAPES_C01 = {**SHAPES, "weakdist": shape_weakdist, "weakdist_deep": shape_weakdist_deep}
+SHAPES_IFACE["optional"] = shape_optional
+SHAPES_IFACE["pit"] = shape_pit
 SHAPES_IFACE["weakdist"] = shape_weakdist
 SHAPES_IFACE["weakdist_deep"] = shape_weakdist_deep
 
